@@ -6,7 +6,7 @@
     scheduler, compared event by event with this model on every run.
     combine and merge: proved over all schedules (Inv_threads_combine.v, Inv_threads_merge.v).
     [at_most_one_err n fins] is the property's own quantifier ("at most one member failing"). *)
-From CB Require Import Threads ThreadSpec Inv_threads_combine Inv_threads_merge.
+From CB Require Import Threads ThreadSpec ThreadsFine Inv_threads_combine Inv_threads_merge Inv_threads_fine.
 
 Theorem C18_combine_no_panic (n : nat) (qs : nat -> list val) (fins : nat -> final) :
   1 <= n -> forall s, cb_reach n qs fins s ->
@@ -117,3 +117,81 @@ Theorem C18_merge_driver_run n qs fins nth sch fuel :
   (forall t, t < n -> mg_finished s t = true) -> merge_check n qs fins (rev (mgs_tr s)) = [].
 Proof. exact (@merge_driver_final n qs fins nth sch fuel). Qed.
 Print Assumptions C18_merge_driver_run.
+
+(** ** merge! at the granularity of EVERY shared-state access, the talkback cells included
+    (ThreadsFine.v: the model the free-schedule runs of the crate are compared with).  [mf_reach]
+    closes the initial state under [mf_step true n s t] for every thread: every schedule. *)
+
+Theorem C18_merge_fine_greeted_once (n : nat) (qs : nat -> list val) (fins : nat -> final) :
+  1 <= n -> at_most_one_err n fins -> forall s, mf_reach n qs fins s ->
+  count is_begin_greet (mfs_tr s) <= 1 /\ before_greet_ok (rev (mfs_tr s)) = true.
+Proof. exact (@fine_greet_once n qs fins). Qed.
+Print Assumptions C18_merge_fine_greeted_once.
+
+Theorem C18_merge_fine_exactly_once (n : nat) (qs : nat -> list val) (fins : nat -> final) :
+  1 <= n -> at_most_one_err n fins -> forall s, mf_reach n qs fins s ->
+  forall t, delivered_by t (rev (mfs_tr s)) ++ mf_q (mfs_th s t) = qs t.
+Proof. exact (@fine_delivered n qs fins). Qed.
+Print Assumptions C18_merge_fine_exactly_once.
+
+Theorem C18_merge_fine_one_terminal (n : nat) (qs : nat -> list val) (fins : nat -> final) :
+  1 <= n -> at_most_one_err n fins -> forall s, mf_reach n qs fins s ->
+  count is_begin_term (mfs_tr s) <= 1.
+Proof. exact (@fine_one_terminal n qs fins). Qed.
+Print Assumptions C18_merge_fine_one_terminal.
+
+(** no completion while a data delivery is in progress and no delivery begins after a terminal message
+    began: what the race repaired by 13d4e7e (H10) broke *)
+Theorem C18_merge_fine_no_data_after_end (n : nat) (qs : nat -> list val) (fins : nat -> final) :
+  1 <= n -> at_most_one_err n fins -> forall s, mf_reach n qs fins s ->
+  scan_term (fun _ => false) false (rev (mfs_tr s)) = [].
+Proof. exact (@fine_no_data_after_end n qs fins). Qed.
+Print Assumptions C18_merge_fine_no_data_after_end.
+
+Theorem C18_merge_fine_no_panic (n : nat) (qs : nat -> list val) (fins : nat -> final) :
+  1 <= n -> at_most_one_err n fins -> forall s, mf_reach n qs fins s ->
+  existsb is_panic (mfs_tr s) = false.
+Proof. exact (@fine_no_panic n qs fins). Qed.
+Print Assumptions C18_merge_fine_no_panic.
+
+(** every member's talkback is told to stop at most once, whoever does it (the failing sibling's
+    sweep or the member itself when it finds [ended] set after publishing its talkback) *)
+Theorem C18_merge_fine_disposed_at_most_once (n : nat) (qs : nat -> list val) (fins : nat -> final) :
+  1 <= n -> at_most_one_err n fins -> forall s, mf_reach n qs fins s ->
+  forall j, count (is_up_term_of j) (mfs_tr s) <= 1.
+Proof. exact (@fine_disposed_at_most_once n qs fins). Qed.
+Print Assumptions C18_merge_fine_disposed_at_most_once.
+
+(** once the output has ended and everything is quiet, every other member has been told to stop
+    exactly once, or had completed by itself *)
+Theorem C18_merge_fine_disposed_exactly_once (n : nat) (qs : nat -> list val) (fins : nat -> final) :
+  1 <= n -> at_most_one_err n fins -> forall s, mf_reach n qs fins s ->
+  (forall t, t < n -> mf_finished s t = true) -> mfs_ended s = true ->
+  forall j, j < n -> (forall e, fins j <> FinErr e) ->
+    count (is_up_term_of j) (mfs_tr s) = 1
+    \/ (mf_q (mfs_th s j) = [] /\ fins j = FinTerm /\ mfs_stopped s j = false).
+Proof. exact (@fine_disposed_exactly_once n qs fins). Qed.
+Print Assumptions C18_merge_fine_disposed_exactly_once.
+
+Theorem C18_merge_fine_final (n : nat) (qs : nat -> list val) (fins : nat -> final) :
+  1 <= n -> at_most_one_err n fins -> forall s, mf_reach n qs fins s ->
+  (forall t, t < n -> mf_finished s t = true) -> merge_check_fine n qs fins (rev (mfs_tr s)) = [].
+Proof. exact (@fine_final n qs fins). Qed.
+Print Assumptions C18_merge_fine_final.
+
+(** what the driver runs for a script with free=1 *)
+Theorem C18_merge_fine_driver_run n qs fins nth sch fuel :
+  1 <= n -> at_most_one_err n fins ->
+  let s := run_full (mf_step true n) mf_finished nth sch fuel (mf_init true n qs fins) in
+  (forall t, t < n -> mf_finished s t = true) -> merge_check_fine n qs fins (rev (mfs_tr s)) = [].
+Proof. exact (@fine_driver_final n qs fins nth sch fuel). Qed.
+Print Assumptions C18_merge_fine_driver_run.
+
+(** the code before 13d4e7e (the member looks at [ended] first and publishes its talkback afterwards):
+    on the witness schedule a datum reaches the sink after the Error *)
+Theorem C18_merge_fine_unfixed_refuted :
+  let s := run_full (mf_step false 2) mf_finished 2 h10_sched 400 (mf_init false 2 h10_qs h10_fins) in
+  (forall t, t < 2 -> mf_finished s t = true) /\
+  In TvAfterTerminal (merge_check_fine 2 h10_qs h10_fins (rev (mfs_tr s))).
+Proof. exact fine_unfixed_refuted. Qed.
+Print Assumptions C18_merge_fine_unfixed_refuted.
